@@ -154,9 +154,22 @@ func (dec *Decoder) readSafeString(utf16Length int) (s string) {
 
 // ReadUnsafeString reads unsafe string.
 func (dec *Decoder) ReadUnsafeString() (s string) {
-	s = dec.readUnsafeString(dec.ReadInt())
+	data, safe := dec.readStringAsBytes(dec.ReadInt())
+	data = dec.skipAfter(data, safe)
+	if data == nil {
+		return
+	}
+	return convert.ToUnsafeString(data)
+}
+
+// skipAfter skips the byte that follows data (the closing quote). When data is a window of the read
+// buffer and skipping needs a refill, the refill would overwrite it: it is copied first.
+func (dec *Decoder) skipAfter(data []byte, safe bool) []byte {
+	if !safe && data != nil && dec.head == dec.tail && dec.reader != nil {
+		data = append([]byte(nil), data...)
+	}
 	dec.Skip()
-	return
+	return data
 }
 
 // ReadSafeString reads safe string.
